@@ -105,7 +105,6 @@ Paths(e) ==
 
 ---------------------------------------------------------------------------
 \* type-directed choices for one hole
-TagType(tag) == CASE tag = "Int" -> TInt [] tag = "Bool" -> TBool [] tag \in Enums -> TEnum(tag)
 
 EnumsIn(c) == IF c = "CA" THEN {"Eb", "Ec"} ELSE Enums
 
